@@ -202,15 +202,18 @@ class C05(Oracle):
                 else:
                     v = gen.formal_value(ch, f, kind)
                 pairs = [[["qn", "prov", pools.PROV_URI, f], v]]
-                if rng.random() < 0.25 and f != "entity":
-                    # a second value for the same formal attribute within the same call
-                    # (never prov:entity: with a prov:collection key that is the disclaimed path)
+                dup_entity = False
+                if rng.random() < 0.25:
+                    # a second value for the same formal attribute within the same call; for
+                    # prov:entity only without a prov:collection key in the call (with one it
+                    # would be the disclaimed multi-member path)
                     pairs.append([["qn", "prov", pools.PROV_URI, f], gen.formal_value(ch, f, kind)])
+                    dup_entity = f == "entity"
                 if rng.random() < 0.4:
                     pairs = gen.extras(ch, 1) + pairs
                 if rng.random() < 0.2:
                     pairs = pairs + gen.extras(ch, 1)
-                if kind != "membership" and rng.random() < 0.1:
+                if kind != "membership" and rng.random() < 0.1 and not dup_entity:
                     # a prov:collection key on a non-collection record must not disable the guard
                     pairs = [[["qn", "prov", pools.PROV_URI, "collection"], gen.formal_value(ch, "collection", kind)]] + pairs
                 return ["add_attrs", ["h", rh], pairs, "pairs" if rng.random() < 0.6 else "dict"]
